@@ -69,6 +69,10 @@ void harness_rule(void)
 	cJSON_AddItemToObject(rule, "startsWith", str2(c, 'B')); cJSON_AddItemToObject(rule, "caseInsensitive", cJSON_CreateTrue()); expect_match = (lower((unsigned char)c) == 'a');
 #elif RULE == 15
 	cJSON_AddItemToObject(rule, "endsWith", str2(c, 'B')); cJSON_AddItemToObject(rule, "caseInsensitive", cJSON_CreateTrue()); expect_match = (lower((unsigned char)c) == 'a');
+#elif RULE == 22
+	/* containsAllOf whose array holds a non-string behind two strings: refused, and the strings copied so far are released */
+	{ cJSON *arr = cJSON_CreateArray(); cJSON *s1 = cJSON_CreateString("?"); s1->valuestring[0] = c; cJSON_AddItemToArray(arr, s1); cJSON_AddItemToArray(arr, cJSON_CreateString("b"));
+	  cJSON_AddItemToArray(arr, mknumber(3)); cJSON_AddItemToObject(rule, "containsAllOf", arr); expect_refused = 1; }
 #elif RULE == 20
 	/* exactly the configured maximum of matchers (3 in the verification configuration): accepted */
 	cJSON_AddItemToObject(rule, "equals", str2(c, 'b')); cJSON_AddItemToObject(rule, "startsWith", str2('a', 'b')); cJSON_AddItemToObject(rule, "endsWith", str2('a', 'b'));
